@@ -18,6 +18,10 @@ func main() {
 		shrink(os.Args[2:])
 		return
 	}
+	if os.Args[1] == "rename" {
+		rename(os.Args[2:])
+		return
+	}
 	if os.Args[1] == "find" {
 		find(os.Args[2:])
 		return
